@@ -125,7 +125,9 @@ CHECKS = {
             "method name, a call to another dispatcher that has its own branch for that name passes method= (an exact "
             "request is not silently re-dispatched to truncated Lanczos by size); (J) the info-gating, per-member / "
             "incremental jitter and orientation rules of psd_safe_cholesky (C16.I/D/U re-used), since every Cholesky "
-            "route returns that factor. NOT decided: L L^T = A, orthonormality of Q/U/V, "
+            "route returns that factor; (U) a sign factor that an _svd definition multiplies into the eigenvector basis cannot "
+            "vanish (torch.sign is 0 at 0: the singular vectors of zero singular values of a singular PSD operator would be wiped "
+            "out) - a necessary condition of orthonormal U / V. NOT decided: L L^T = A, orthonormality of Q/U/V beyond that clause, "
             "Krylov compressions (numerical).",
             TRUST + "; orientation tag rules of lo_static/orient.py; reviewed exception tables.", "DESIGN.md section 3, C06"),
     "C16": (True,
@@ -133,7 +135,7 @@ CHECKS = {
             "dependence closure, ownership analysis for the input",
             "Partial, structural - the control skeleton of psd_safe_cholesky for all inputs, batch shapes and dtypes: "
             "(W) A is never written; (I) on every acyclic path to a return of a factor, after the LAST cholesky_ex binding on that path some "
-            "test guarantees - whichever disjunct made it take that branch - that the info codes are all zero (or, for "
+            "test on the info codes of THAT factorization (followed through copies) guarantees - whichever disjunct made it take that branch - that the info codes are all zero (or, for "
             "the first factorization, the documented trace_mode escape); (F) exhausting the tries cannot reach a normal return and raises "
             "NotPSDError, the NaN screen dominates the retries, every perturbation is followed by a NumericalWarning; "
             "(D) the addend depends on info (per batch member) and is the difference new - previous jitter, defaults "
